@@ -100,6 +100,18 @@ func btreeObserve(name string, t *btree.BTree[int, string], model map[int]string
 	if fmt.Sprint(got) != fmt.Sprint(want) {
 		c(name+".Traverse/differs-from-ordered-map", "Traverse visited %v, want %v", got, want)
 	}
+	// a traversal started from inside a traversal's callback (read-only re-entrancy)
+	if len(want) > 0 && len(want) <= 6 {
+		var outer, inner []string
+		t.Traverse(func(k int, v string) {
+			outer = append(outer, fmt.Sprintf("%d=%s", k, v))
+			inner = inner[:0]
+			t.Traverse(func(k2 int, v2 string) { inner = append(inner, fmt.Sprintf("%d=%s", k2, v2)) })
+		})
+		if fmt.Sprint(outer) != fmt.Sprint(want) || fmt.Sprint(inner) != fmt.Sprint(want) {
+			c(name+".Traverse/nested-traversal-differs", "Traverse with a Traverse inside its callback visited %v (inner, last round: %v), want %v", outer, inner, want)
+		}
+	}
 	n := ever
 	if n < 1 {
 		n = 1
@@ -187,6 +199,62 @@ func btreeOrders(rep *core.Report) {
 		}
 		check(order, false)
 	}
+	// very long monotone runs (the worst case for the height): N keys ascending / descending, Height on
+	// every prefix, lookups of a sample of keys and a full Traverse at the end
+	bigN := 150000
+	if thorough {
+		bigN = 600000
+	}
+	for _, rev := range []bool{false, true} {
+		t := btree.New[int, string]()
+		failed := false
+		func() {
+			defer func() {
+				if r := recover(); r != nil {
+					rep.Add("BTree/long-monotone-run/panic", fmt.Sprintf("panic after a monotone run (descending=%t) of up to %d keys: %v", rev, bigN, r), fmt.Sprintf("Put of %d keys in monotone order (descending=%t)", bigN, rev), nil)
+					failed = true
+				}
+			}()
+			for i := 0; i < bigN; i++ {
+				k := i
+				if rev {
+					k = bigN - 1 - i
+				}
+				t.Put(k, "a")
+				trans++
+				if bound := bits.Len(uint(i+1)) - 1; t.Height() > bound {
+					rep.Add("BTree.Height/exceeds-log2/long-monotone-run", fmt.Sprintf("Height = %d > floor(log2(%d)) = %d (descending=%t)", t.Height(), i+1, bound, rev), fmt.Sprintf("Put of %d keys in monotone order (descending=%t)", i+1, rev), nil)
+					failed = true
+					return
+				}
+			}
+			if t.Size() != bigN {
+				rep.Add("BTree.Size/long-monotone-run", fmt.Sprintf("Size = %d after %d distinct keys", t.Size(), bigN), "long monotone run", nil)
+			}
+			for k := 0; k < bigN; k += 1 + bigN/997 {
+				if v, ok := t.Get(k); !ok || v != "a" {
+					rep.Add("BTree.Get/present-key-not-found/long-monotone-run", fmt.Sprintf("Get(%d) = (%q,%t) after a monotone run of %d keys", k, v, ok, bigN), "long monotone run", nil)
+					break
+				}
+			}
+			n, prev := 0, -1
+			t.Traverse(func(k int, v string) {
+				if k != prev+1 {
+					failed = true
+				}
+				prev = k
+				n++
+			})
+			if n != bigN || failed {
+				rep.Add("BTree.Traverse/differs-from-ordered-map/long-monotone-run", fmt.Sprintf("Traverse visited %d keys (in order: %t) after a monotone run of %d keys", n, !failed, bigN), "long monotone run", nil)
+			}
+			t.Remove(bigN / 2)
+			if _, ok := t.Get(bigN / 2); ok || t.Size() != bigN-1 {
+				rep.Add("BTree.Remove/long-monotone-run", "Remove of a present key in a tall tree did not take effect", "long monotone run", nil)
+			}
+		}()
+	}
+	rep.Set("long_monotone_run_keys", bigN)
 	// Run-structured insertion orders: every order that consists of r monotone runs over disjoint key
 	// intervals — every combination of run lengths 1..L, run directions (ascending/descending) and
 	// relative position of the intervals. These reach the node-filling patterns (append-filled,
